@@ -229,7 +229,7 @@ class Engine:
     def feasible(self, st: State, extra=None) -> bool:
         if self.scouting:
             return True
-        s = z3.Solver()
+        s = z3.SolverFor('QF_AUFLIA')
         s.set('timeout', 300)
         s.add(*st.pc)
         if extra is not None:
